@@ -199,7 +199,9 @@ C10M = 'Bashlex.Props.C10'
 T_C10 = [('Bashlex.C10.' + t, C10M) for t in ['readline_spec', 'makeheredoc_spec', 'gather_spec', 'specGather_nil', 'specGather_cons', 'specGatherS_fifo',
          'gather_beyond_end', 'readtoken_gather_slot_empty', 'ofInput_noFinalBackslash', 'specHeredoc_value_suffix', 'specHeredoc_cursor',
          'specHeredoc_slice', 'specHeredoc_lines', 'specHeredoc_none', 'gather_top_eq_local', 'SimEq.top_eq_local']]
+T_C10 += [('Bashlex.HeredocGen.' + t, 'Bashlex.Props.HeredocGen') for t in ['makeheredoc_gen', 'gatherBody_gen', 'gather_gen', 'msg_gen', 'heredoc_choices']]
 reg('C10', 'propchecks.c10', 'proof', T_C10 + (T1[:1] + TLEX), [ASCII, CORR,
+    'Props/HeredocGen.lean: heredoc.py (gatherheredocuments, makeheredoc) and tokenizer.readline are matched against fixed skeletons by the translator (any deviation raises) and every constant and choice they make is GENERATED data (Gen/Heredoc.lean: pop(0) vs pop(), the strict guard, which word is the delimiter - the raw token, no quote removal -, tab stripping iff <<-, the slice offsets of the comparison and of the stored line, the +1/-1 of the span and of the adjacency test, the error text); makeheredoc_gen / gather_gen: the model reader parametrised by these data, at the generated values, EQUALS the model reader, so the pure specifications below are statements about the reader with the source\'s constants; 12 edits of heredoc.py each break a theorem. ',
     'the theorems cover the reader (readline, makeheredoc, gatherheredocuments: FIFO pairing, body = lines up to the first line equal to the delimiter, span, cursor) '
     'given the queue of pending redirects; WHEN the parser queues a redirect relative to the tokenizer gathering (LALR look-ahead, defect D11) and quote removal of '
     'the delimiter (the raw token is compared) are decided per input'])
